@@ -20,7 +20,7 @@ use bio::alignment::sparse::{
     hash_kmers, lcskpp, sdpkpp, sdpkpp_union_lcskpp_path,
 };
 use bio::alphabets::{Alphabet, RankTransform};
-use bio::data_structures::qgram_index::QGramIndex;
+use bio::data_structures::qgram_index::{Interval, Match, QGramIndex};
 use serde_json::{json, Value};
 
 pub struct C19Prop;
@@ -163,6 +163,12 @@ fn check_index(alpha: &[u8], text: &[u8], q: u32, mc: Option<usize>, cc: &mut Ca
             return;
         }
     };
+    if idx.q() != q {
+        cc.violation(
+            "C19/qgram-index/q/differs-from-constructor-argument",
+            format!("with_max_count({}, ..).q() = {}", q, idx.q()),
+        );
+    }
     let res = guard(|| {
         for num in 0..ngrams {
             let got = idx.qgram_matches(codes[num]);
@@ -197,6 +203,93 @@ fn check_index(alpha: &[u8], text: &[u8], q: u32, mc: Option<usize>, cc: &mut Ca
 // q-gram index: pattern queries
 
 const MIN_COUNTS: [usize; 3] = [1, 2, 3];
+
+/// `Interval::get(s)` is the slice s[start..stop].  Intervals that do not lie inside `s` are not
+/// queried (such a match is reported as a wrong match set by the caller).  Returns the slice the
+/// subject gave; at most one violation per key and case (`flags`: wrong slice, panic).
+fn interval_get<'a>(what: &str, iv: &Interval, s: &'a [u8], flags: &mut [bool; 2], cc: &mut CaseCtx) -> Option<&'a [u8]> {
+    if !(iv.start <= iv.stop && iv.stop <= s.len()) {
+        return None;
+    }
+    match guard(|| iv.get(s)) {
+        Err(msg) => {
+            if !flags[1] {
+                flags[1] = true;
+                cc.violation(
+                    "C19/interval-get/panic",
+                    format!("{} interval {}..{} on a sequence of length {}: {}", what, iv.start, iv.stop, s.len(), msg),
+                );
+            }
+            None
+        }
+        Ok(g) => {
+            if g != &s[iv.start..iv.stop] && !flags[0] {
+                flags[0] = true;
+                cc.violation(
+                    "C19/interval-get/wrong-slice",
+                    format!("{} interval {}..{}: get() = {:?}, the slice is {:?}", what, iv.start, iv.stop, show(g), show(&s[iv.start..iv.stop])),
+                );
+            }
+            Some(g)
+        }
+    }
+}
+
+/// `Match` is ordered by `count` alone: every comparison route (cmp, partial_cmp, the operators,
+/// max/min, sort) is compared with the same operation on the counts.  No order among matches of
+/// equal count is demanded.
+fn check_match_order(ms: &[Match], cc: &mut CaseCtx) {
+    use std::cmp::Ordering;
+    let r = guard(|| {
+        let mut bad: Option<(&'static str, String)> = None;
+        'outer: for a in ms {
+            for b in ms {
+                let want = a.count.cmp(&b.count);
+                let got = a.cmp(b);
+                if got != want {
+                    bad = Some(("C19/match-ord/cmp-not-by-count", format!("counts {} and {}: cmp = {:?}", a.count, b.count, got)));
+                    break 'outer;
+                }
+                let pc = a.partial_cmp(b);
+                let ops = (a < b, a <= b, a > b, a >= b);
+                let want_ops = (want == Ordering::Less, want != Ordering::Greater, want == Ordering::Greater, want != Ordering::Less);
+                if pc != Some(want) || ops != want_ops {
+                    bad = Some((
+                        "C19/match-ord/partial_cmp-not-by-count",
+                        format!("counts {} and {}: partial_cmp = {:?}, (<, <=, >, >=) = {:?}", a.count, b.count, pc, ops),
+                    ));
+                    break 'outer;
+                }
+            }
+        }
+        if bad.is_none() {
+            let (mx, mn) = (ms.iter().max().map(|m| m.count), ms.iter().min().map(|m| m.count));
+            let (wmx, wmn) = (ms.iter().map(|m| m.count).max(), ms.iter().map(|m| m.count).min());
+            if mx != wmx || mn != wmn {
+                bad = Some((
+                    "C19/match-ord/max-min-not-by-count",
+                    format!("count of max() {:?} / min() {:?}, largest / smallest count {:?} / {:?}", mx, mn, wmx, wmn),
+                ));
+            }
+        }
+        if bad.is_none() {
+            let mut sorted = ms.to_vec();
+            sorted.sort();
+            let counts: Vec<usize> = sorted.iter().map(|m| m.count).collect();
+            let mut want: Vec<usize> = ms.iter().map(|m| m.count).collect();
+            want.sort();
+            if counts != want {
+                bad = Some(("C19/match-ord/sort-not-by-count", format!("counts after sort() {:?}, ascending counts {:?}", counts, want)));
+            }
+        }
+        bad
+    });
+    match r {
+        Err(msg) => cc.violation("C19/match-ord/panic", msg),
+        Ok(Some((key, detail))) => cc.violation(key, detail),
+        Ok(None) => {}
+    }
+}
 
 fn check_pattern(idx: &QGramIndex, alpha_len: usize, text: &[u8], q: u32, p: &[u8], cc: &mut CaseCtx) {
     let qq = q as usize;
@@ -253,12 +346,35 @@ fn check_pattern(idx: &QGramIndex, alpha_len: usize, text: &[u8], q: u32, p: &[u
     cc.outcome(&exact);
     cc.outcome(&diag_want(1));
 
+    if idx.q() != q {
+        cc.violation("C19/qgram-index/q/differs-from-constructor-argument", format!("new({}, ..).q() = {}", q, idx.q()));
+    }
+    let mut iv_flags = [false; 2];
     match guard(|| idx.exact_matches(p)) {
         Err(msg) => cc.violation(
             format!("C19/qgram-index/exact_matches/panic/{}", panic_kind(&msg)),
             format!("exact_matches panicked: {}", msg),
         ),
         Ok(got) => {
+            // Interval::get on both intervals of every reported exact match; the two slices of an
+            // exact match are the same string
+            let mut slices_differ = false;
+            for x in &got {
+                let ps = interval_get("pattern", &x.pattern, p, &mut iv_flags, cc);
+                let ts = interval_get("text", &x.text, text, &mut iv_flags, cc);
+                if let (Some(ps), Some(ts)) = (ps, ts) {
+                    if ps != ts && !slices_differ {
+                        slices_differ = true;
+                        cc.violation(
+                            "C19/qgram-index/exact_matches/slices-differ",
+                            format!(
+                                "pattern {}..{} = {:?} but text {}..{} = {:?}",
+                                x.pattern.start, x.pattern.stop, show(ps), x.text.start, x.text.stop, show(ts)
+                            ),
+                        );
+                    }
+                }
+            }
             let mut got: Vec<_> = got
                 .iter()
                 .map(|x| (x.pattern.start, x.pattern.stop, x.text.start, x.text.stop))
@@ -288,6 +404,14 @@ fn check_pattern(idx: &QGramIndex, alpha_len: usize, text: &[u8], q: u32, p: &[u
                 break;
             }
             Ok(got) => {
+                if min_count == 1 {
+                    // the complete list (every diagonal with a hit): Interval::get and the order
+                    for x in &got {
+                        interval_get("pattern", &x.pattern, p, &mut iv_flags, cc);
+                        interval_get("text", &x.text, text, &mut iv_flags, cc);
+                    }
+                    check_match_order(&got, cc);
+                }
                 let mut got: Vec<_> = got
                     .iter()
                     .map(|x| (x.pattern.start, x.pattern.stop, x.text.start, x.text.stop, x.count))
@@ -984,13 +1108,14 @@ impl Prop for C19Prop {
         "exploration"
     }
     fn rule(&self) -> &'static str {
-        "Complete sweeps, each tuple enumerated once: (alphabet, text, q, max_count) index listings over all |A|^q q-grams; (alphabet, text, q, pattern) exact_matches/matches(min_count 1,2,3); (alphabet size 1..=256, q) code injectivity / reverse mirror over all q-grams, or over a two-substitution family when q*bits reaches the word size; (seq1, seq2, k) k-mer matches, chaining and expansion on the true match list; (sorted match list, k) chaining on arbitrary lists. Non-trivial: index case - some q-gram occurs at least twice or is masked by max_count; pattern case - at least one shared q-gram and (alphabet size not a power of two, or a hit below the main diagonal, or a diagonal with >= 2 hits); codes - alphabet size not a power of two with q >= 2, or q*bits > 56; sparse/chain - the optimal chain has more than one match."
+        "Complete sweeps, each tuple enumerated once: (alphabet, text, q, max_count) index listings over all |A|^q q-grams; (alphabet, text, q, pattern) exact_matches/matches(min_count 1,2,3), with Interval::get on both intervals of every reported match compared with the slice [start, stop) (and pattern slice = text slice for exact matches), every comparison route of Match (cmp, partial_cmp, <, <=, >, >=, max, min, sort) on all pairs of the matches(p, 1) list compared with the same operation on the counts, and QGramIndex::q() compared with the constructor argument; (alphabet size 1..=256, q) code injectivity / reverse mirror over all q-grams, or over a two-substitution family when q*bits reaches the word size; (seq1, seq2, k) k-mer matches, chaining and expansion on the true match list; (sorted match list, k) chaining on arbitrary lists. Non-trivial: index case - some q-gram occurs at least twice or is masked by max_count; pattern case - at least one shared q-gram and (alphabet size not a power of two, or a hit below the main diagonal, or a diagonal with >= 2 hits); codes - alphabet size not a power of two with q >= 2, or q*bits > 56; sparse/chain - the optimal chain has more than one match."
     }
     fn assumptions(&self) -> Vec<&'static str> {
         vec![
             "oracles: naive window scans; per-diagonal scan; LCSk++ optimum = quadratic DP over the sorted list, cross-checked against explicit enumeration of every legal chain (up to 60000 chains per case, count of cases above that is reported as chain_enumeration_over_budget)",
             "results of matches()/exact_matches() are compared as sorted multisets (the subject collects them through a HashMap)",
             "texts and patterns only contain symbols of the alphabet (anything else is a documented panic)",
+            "Match is ordered by count alone (its Ord impl); among matches of equal count no order is demanded (max/min/sort are only checked through the counts they yield); Interval::get is only called for intervals that lie inside the sequence",
             "exact_matches/matches are checked for max_count = unlimited only (the statement does not say what masking does to them)",
             "sdpkpp / sdpkpp_union_lcskpp_path: only legality of the returned chain is demanded; expand_kmer_matches: sorted, duplicate-free, in range, and equal to the complete exact match list when 0 mismatches are allowed",
             "q*ceil(log2|A|) <= 64 (larger q is refused by an assertion and out of scope); QGramIndex only for code spaces <= 2^15",
